@@ -7,6 +7,11 @@ K1  a repeated checkpoint adds nothing: commands::checkpoint::get_checkpoint_ent
 K2  pruning and selection agree: PersistedWorkingLog::prune_old_char_attributions followed by
     checkpoint::build_previous_file_state_maps select, per file, the newest entry, and that is the entry
     whose character ranges were kept; ai_touched_files ignores human-only checkpoints.
+K4  the pre-commit checkpoint is skipped only when no AI state exists.  Encoded from MIR:
+    PersistedWorkingLog::all_ai_touched_files and the head of commands::checkpoint::run with is_pre_commit = true
+    (up to file discovery) over working logs written by the real writer: the early exit is taken iff no AI
+    checkpoint ever recorded a file, INITIAL names no file and the inter-commit-move flag is off — an extra human
+    checkpoint on an AI-touched file must not change that.
 K3  tracker no-ops (identical text keeps every line's author): decided by the C16 check.
 """
 import itertools
@@ -43,6 +48,8 @@ class AnyField(Agg):
 
 
 def install(M):
+    c03.install(M)
+
     def cfg_get(P, c, args, dt):
         return Ref(Cell(Agg('config::Config', [])))
 
@@ -55,6 +62,26 @@ def install(M):
     M.env['config::Config::get'] = cfg_get
     M.env['config::Config::get_feature_flags'] = cfg_flags
     M.env[CP + '::get_previous_content_from_head'] = head_content
+
+    def head(P, c, args, dt):
+        return err(Opaque('GitAiError', 'nohead'))
+
+    def noop(P, c, args, dt):
+        return unit()
+
+    def patterns(P, c, args, dt):
+        return VecV([])
+
+    def matcher(P, c, args, dt):
+        return Opaque('IgnoreMatcher', None)
+
+    def tracked(P, c, args, dt):
+        raise Reached()
+    M.env['git::repository::Repository::head'] = head
+    M.env['commands::git_hook_handlers::ensure_repo_level_hooks_for_checkpoint'] = noop
+    M.env['authorship::ignore::effective_ignore_patterns'] = patterns
+    M.env['authorship::ignore::build_ignore_matcher'] = matcher
+    M.env[CP + '::get_all_tracked_files'] = tracked
 
 
 def plan(tier, seed):
@@ -71,6 +98,13 @@ def plan(tier, seed):
     for n in range(1, nck + 1):
         for files in itertools.product(('a', 'b', 'ab'), repeat=n):
             tasks.append(('prune_select', {'files': list(files)}))
+    for n in range(0, 4):
+        for kinds in itertools.product(('AiAgent', 'Human', 'AiTab'), repeat=n):
+            if n == 3 and 'AiTab' in kinds:
+                continue
+            for files in (['a'] * n, (['a', 'b', 'a'])[:n]):
+                for init in (False, True):
+                    tasks.append(('pre_commit_skip', {'kinds': list(kinds), 'files': list(files), 'initial': init}))
     return tasks
 
 
@@ -201,12 +235,88 @@ def ob_prune_select(h, shape):
     h.sample = h.witness()
 
 
-OBLIGATIONS = {'repeat': ob_repeat, 'changed': ob_changed, 'prune_select': ob_prune_select}
+class Reached(Exception):
+    pass
+
+
+def ob_pre_commit_skip(h, shape):
+    """shape: {'kinds': [AiAgent|AiTab|Human per checkpoint], 'files': [file per checkpoint], 'initial': bool}"""
+    P = h.P
+    M = P.M
+    wl = c03.mk_wl(M)
+    P.state['wl'] = wl
+    P.state['fs'] = {'/wl': 'DIR', '/w/a': StringV(list(b'x\n')), '/w/b': StringV(list(b'y\n'))}
+    flag_on = h.choice(2) == 1
+    P.state['flag'] = Sc(flag_on, 0)
+    stats = Agg('authorship::working_log::CheckpointLineStats', [Sc(0, 32) for _ in M.src.struct_fields('authorship::working_log::CheckpointLineStats')])
+    cks = []
+    for i, (kind, f) in enumerate(zip(shape['kinds'], shape['files'])):
+        who = 'human' if kind == 'Human' else 's1'
+        la = mk_struct(M, LATTR, start_line=Sc(1, 32), end_line=Sc(1, 32), author_id=pystring(who), overrode=none())
+        entry = mk_struct(M, WLE, file=pystring(f), blob_sha=pystring('b%d' % i), attributions=VecV([]), line_attributions=VecV([la] if kind != 'Human' else []))
+        cks.append(mk_struct(M, CKPT, kind=mk_enum(M, KIND, kind), diff=pystring('d'), author=pystring('x'), entries=VecV([entry]),
+                             timestamp=Sc(i, 64), transcript=none(), agent_id=none(), agent_metadata=none(), line_stats=stats,
+                             api_version=pystring('checkpoint/1.0.0'), git_ai_version=none()))
+    v = VecV(cks)
+    r = P.call_named(PWL + '::write_all_checkpoints', [Ref(Cell(wl)), SliceRef(v, 0, len(cks))])
+    if r.var != 'Ok':
+        raise Unsupported('seeding checkpoints failed')
+    if shape['initial']:
+        files = MapV('hash', [[pystring('a'), VecV([mk_struct(M, LATTR, start_line=Sc(1, 32), end_line=Sc(1, 32), author_id=pystring('s0'), overrode=none())])]], 'map')
+        r = P.call_named(PWL + '::write_initial_attributions', [Ref(Cell(wl)), files, MapV('hash', [], 'map')])
+        if r.var != 'Ok':
+            raise Unsupported('seeding INITIAL failed')
+    h.inputs_struct = {'kinds': shape['kinds'], 'files': shape['files'], 'initial': shape['initial'], 'inter_commit_move': flag_on}
+    ai_files = sorted({f for k, f in zip(shape['kinds'], shape['files']) if k != 'Human'})
+    try:
+        t = P.call_named(PWL + '::all_ai_touched_files', [Ref(Cell(wl))])
+    except Panic as e:
+        h.panic('K4-no-panic', e.msg)
+        return
+    got = sorted(bytes(concrete_bytes(as_bytes(k))).decode() for k, _ in t.f[0].ent) if t.var == 'Ok' else None
+    h.require(got == ai_files, 'K4-ai-touched-is-every-file-an-AI-checkpoint-recorded',
+              'all_ai_touched_files = %r, files recorded by AI checkpoints: %r' % (got, ai_files))
+    # the early exit of the pre-commit checkpoint
+    repo = c03.mk_repo(M)
+    skipped = None
+    try:
+        r = P.run_fn(M.mir.get(M.find_fn(CP + '::run')),
+                     [Ref(Cell(repo)), pystr('user'), mk_enum(M, KIND, 'Human'), FALSE, FALSE, TRUE, none(), TRUE])
+        skipped = r.var == 'Ok'
+    except Reached:
+        skipped = False
+    except Panic as e:
+        h.panic('K4-run-no-panic', e.msg)
+        return
+    must_run = bool(ai_files) or shape['initial'] or flag_on
+    h.require(not (skipped and must_run), 'K4-pre-commit-not-skipped-while-AI-state-exists',
+              'the pre-commit checkpoint was skipped although %s' % ('AI checkpoints recorded %r' % ai_files if ai_files else ('INITIAL names a file' if shape['initial'] else 'inter_commit_move is on')))
+    h.cover('K4-skipped', skipped is True)
+    h.cover('K4-ran', skipped is False)
+    h.sample = h.witness()
+
+
+OBLIGATIONS = {'repeat': ob_repeat, 'changed': ob_changed, 'prune_select': ob_prune_select, 'pre_commit_skip': ob_pre_commit_skip}
+MUST_COVER = ['K4-skipped', 'K4-ran']
 
 
 def replay(v, native):
     inp = v['inputs']
     ob = v['obligation']
+    if ob.startswith('K4'):
+        if inp.get('inter_commit_move'):
+            return {'reproduced': False, 'note': 'the feature flag cannot be switched natively'}
+        r = native('c14_pre_commit_skip', inp)
+        if 'panic' in r:
+            return {'reproduced': v['kind'] == 'panic', 'native': r}
+        if v['kind'] == 'panic':
+            return {'reproduced': False, 'native': r}
+        ai_files = sorted({f for k, f in zip(inp['kinds'], inp['files']) if k != 'Human'})
+        run = r.get('run', {})
+        skipped = run.get('ok') and run.get('result') == [0, 0, 0]
+        bad = {'K4-ai-touched-is-every-file-an-AI-checkpoint-recorded': r.get('touched') != ai_files,
+               'K4-pre-commit-not-skipped-while-AI-state-exists': bool(skipped) and (bool(ai_files) or inp['initial'])}
+        return {'reproduced': bool(bad.get(ob)), 'native': r}
     if ob.startswith('K2'):
         r = native('c14_prune_select', inp)
         if 'panic' in r:
